@@ -996,6 +996,8 @@ class SQLLiteQuery(Query):
 
     @classmethod
     def _builder(cls, **kwargs: Any) -> "SQLLiteQueryBuilder":
+        # SQLite rejects parenthesised operands of a compound SELECT
+        kwargs.setdefault("wrap_set_operation_queries", False)
         return SQLLiteQueryBuilder(**kwargs)
 
 
